@@ -210,6 +210,240 @@ auto a_includes(Case const& c) -> std::string
     return verdict(e, s);
 }
 
+// ================================================================== results of class type, explicit operator bool
+// The conversion is deliberately NOT explicit: with an explicit one a library change such as `static_cast<long>(pred(x))`
+// or `first + pred(x)` would stop this TU from compiling, and a harness that does not build gives no verdict at all
+// (arithmetic misuse of the result is what the int truth modes of Case::tr detect).
+struct Truthy {
+    bool v;
+    operator bool() const { return v; } // NOLINT(google-explicit-constructor)
+};
+struct PredC {
+    int id;
+    auto operator()(Elem const& e) const -> Truthy
+    {
+        touch(&e, "predicate applied to");
+        return Truthy{pred_eval(id, e.key)};
+    }
+};
+struct CmpC {
+    int id;
+    auto operator()(Elem const& a, Elem const& b) const -> Truthy
+    {
+        touch(&a, "comparator applied to");
+        touch(&b, "comparator applied to");
+        return Truthy{cmp_eval(id, a.key, b.key)};
+    }
+};
+struct EqC {
+    int id;
+    auto operator()(Elem const& a, Elem const& b) const -> Truthy
+    {
+        touch(&a, "binary predicate applied to");
+        touch(&b, "binary predicate applied to");
+        return Truthy{eq_eval(id, a.key, b.key)};
+    }
+};
+template <typename K>
+auto a_class_unary(Case const& c) -> std::string
+{
+    V a = mk(c.a, 0);
+    PredC p{c.pred};
+    int const L = len(c);
+    std::string s;
+    std::string e;
+    int ntrue = 0;
+    for (int k : c.a) { ntrue += pred_eval(c.pred, k) ? 1 : 0; }
+    {
+        auto f = a.begin();
+        auto l = a.end();
+        s += bs(std::all_of(f, l, p)) + bs(std::any_of(f, l, p)) + bs(std::none_of(f, l, p)) + " count_if=" + num(std::count_if(f, l, p)) + " find_if=" + num(std::find_if(f, l, p) - f) + " find_if_not=" + num(std::find_if_not(f, l, p) - f)
+           + " is_partitioned=" + bs(std::is_partitioned(f, l, p));
+        V d(a.size(), Elem{55, -55});
+        auto r = std::copy_if(f, l, d.begin(), p) - d.begin();
+        s += " copy_if=" + num(r) + ren(d.data(), static_cast<int>(r));
+        V d2(a.size(), Elem{55, -55});
+        auto r2 = std::remove_copy_if(f, l, d2.begin(), p) - d2.begin();
+        s += " remove_copy_if=" + num(r2) + ren(d2.data(), static_cast<int>(r2));
+        V x = a;
+        auto r3 = std::remove_if(x.begin(), x.end(), p) - x.begin();
+        s += " remove_if=" + num(r3) + ren(x.data(), static_cast<int>(r3));
+        V y = a;
+        std::replace_if(y.begin(), y.end(), p, Elem{7, 700});
+        s += " replace_if" + ren(y);
+        V dt(a.size(), Elem{55, -55});
+        V df(a.size(), Elem{55, -55});
+        auto pc = std::partition_copy(f, l, dt.begin(), df.begin(), p);
+        s += " partition_copy=" + num(pc.first - dt.begin()) + "," + num(pc.second - df.begin()) + ren(dt.data(), static_cast<int>(pc.first - dt.begin())) + ren(df.data(), static_cast<int>(pc.second - df.begin()));
+        V z = a;
+        std::stable_partition(z.begin(), z.end(), p);
+        s += " partition=" + num(ntrue) + " partition_point=" + num(std::partition_point(z.begin(), z.end(), p) - z.begin());
+    }
+    {
+        Buf A("a", a, c.pad, padn(c));
+        Scope sc;
+        auto f = A.b();
+        auto l = A.e();
+        e += bs(etl::all_of(f, l, p)) + bs(etl::any_of(f, l, p)) + bs(etl::none_of(f, l, p)) + " count_if=" + num(etl::count_if(f, l, p)) + " find_if=" + num(etl::find_if(f, l, p) - f) + " find_if_not=" + num(etl::find_if_not(f, l, p) - f)
+           + " is_partitioned=" + bs(etl::is_partitioned(f, l, p));
+        Buf D("copy_if_dest", ntrue, c.pad, padn(c));
+        auto r = etl::copy_if(f, l, D.b(), p) - D.b();
+        e += " copy_if=" + num(r) + ren(D);
+        Buf D2("remove_copy_if_dest", L - ntrue, c.pad, padn(c));
+        auto r2 = etl::remove_copy_if(f, l, D2.b(), p) - D2.b();
+        e += " remove_copy_if=" + num(r2) + ren(D2);
+        Buf X("x", a, c.pad, padn(c));
+        auto r3 = etl::remove_if(X.b(), X.e(), p) - X.b();
+        e += " remove_if=" + num(r3) + ren(X.b(), static_cast<int>(r3));
+        Buf Y("y", a, c.pad, padn(c));
+        etl::replace_if(Y.b(), Y.e(), p, Elem{7, 700});
+        e += " replace_if" + ren(Y);
+        Buf DT("dest_true", ntrue, c.pad, padn(c));
+        Buf DF("dest_false", L - ntrue, c.pad, padn(c));
+        auto pc = etl::partition_copy(f, l, DT.b(), DF.b(), p);
+        e += " partition_copy=" + num(pc.first - DT.b()) + "," + num(pc.second - DF.b()) + ren(DT) + ren(DF);
+        Buf Z("z", a, c.pad, padn(c));
+        auto pr = etl::partition(Z.b(), Z.e(), p) - Z.b();
+        bool ok = is_perm(Z.b(), Z.n, a);
+        for (int i = 0; i < L; ++i) { ok = ok && pred_eval(c.pred, Z.b()[i].key) == (i < ntrue); }
+        e += " partition=" + (ok ? num(pr) : "invalid" + ren(Z)) + " partition_point=" + num(etl::partition_point(Z.b(), Z.e(), p) - Z.b());
+    }
+    return verdict(e, s);
+}
+template <typename K>
+auto a_class_binary(Case const& c) -> std::string
+{
+    V a = mk(c.a, 0);
+    V b = mk(c.b, 100);
+    EqC q{c.eq};
+    Elem v{c.val, 900};
+    std::string s;
+    std::string e;
+    {
+        auto f = a.begin();
+        auto l = a.end();
+        auto mm = std::mismatch(f, l, b.begin(), b.end(), q);
+        s += "equal=" + bs(std::equal(f, l, b.begin(), b.end(), q)) + " mismatch=" + num(mm.first - f) + "," + num(mm.second - b.begin()) + " search=" + num(std::search(f, l, b.begin(), b.end(), q) - f)
+           + " find_end=" + num(std::find_end(f, l, b.begin(), b.end(), q) - f) + " find_first_of=" + num(std::find_first_of(f, l, b.begin(), b.end(), q) - f) + " adjacent_find=" + num(std::adjacent_find(f, l, q) - f)
+           + " search_n=" + num(std::search_n(f, l, 2, v, q) - f);
+        V x = a;
+        auto r = std::unique(x.begin(), x.end(), q) - x.begin();
+        s += " unique=" + num(r) + ren(x.data(), static_cast<int>(r));
+        V d(a.size(), Elem{55, -55});
+        auto r2 = std::unique_copy(f, l, d.begin(), q) - d.begin();
+        s += " unique_copy=" + num(r2) + ren(d.data(), static_cast<int>(r2));
+    }
+    {
+        Buf A("a", a, c.pad, padn(c));
+        Buf B("b", b, c.pad, padn(c));
+        Scope sc;
+        auto f  = A.b();
+        auto l  = A.e();
+        auto mm = etl::mismatch(f, l, B.b(), B.e(), q);
+        e += "equal=" + bs(etl::equal(f, l, B.b(), B.e(), q)) + " mismatch=" + num(mm.first - f) + "," + num(mm.second - B.b()) + " search=" + num(etl::search(f, l, B.b(), B.e(), q) - f)
+           + " find_end=" + num(etl::find_end(f, l, B.b(), B.e(), q) - f) + " find_first_of=" + num(etl::find_first_of(f, l, B.b(), B.e(), q) - f) + " adjacent_find=" + num(etl::adjacent_find(f, l, q) - f)
+           + " search_n=" + num(etl::search_n(f, l, 2, v, q) - f);
+        Buf X("x", a, c.pad, padn(c));
+        auto r = etl::unique(X.b(), X.e(), q) - X.b();
+        e += " unique=" + num(r) + ren(X.b(), static_cast<int>(r));
+        V x = a;
+        auto ul = static_cast<int>(std::unique(x.begin(), x.end(), Eq{c.eq}) - x.begin());
+        Buf D("unique_copy_dest", ul, c.pad, padn(c));
+        auto r2 = etl::unique_copy(f, l, D.b(), q) - D.b();
+        e += " unique_copy=" + num(r2) + ren(D);
+    }
+    return verdict(e, s);
+}
+template <typename K>
+auto a_class_compare(Case const& c) -> std::string
+{
+    V a = mk(c.a, 0);
+    V b = mk(c.b, 100);
+    CmpC q{c.cmp};
+    Elem v{c.val, 900};
+    int const L = len(c);
+    int const m = L == 0 ? 0 : c.val % (L + 1);
+    V sa = a;
+    V sb = b;
+    std::stable_sort(sa.begin(), sa.end(), Cmp{c.cmp});
+    std::stable_sort(sb.begin(), sb.end(), Cmp{c.cmp});
+    V halves = a;
+    std::stable_sort(halves.begin(), halves.begin() + m, Cmp{c.cmp});
+    std::stable_sort(halves.begin() + m, halves.end(), Cmp{c.cmp});
+    std::string s;
+    std::string e;
+    {
+        auto f = a.begin();
+        auto l = a.end();
+        auto mme = std::minmax_element(f, l, q);
+        s += "is_sorted=" + bs(std::is_sorted(f, l, q)) + " until=" + num(std::is_sorted_until(f, l, q) - f) + " min=" + num(std::min_element(f, l, q) - f) + " max=" + num(std::max_element(f, l, q) - f) + " minmax=" + num(mme.first - f) + ","
+           + num(mme.second - f) + " lex=" + bs(std::lexicographical_compare(f, l, b.begin(), b.end(), q));
+        V x = a;
+        std::stable_sort(x.begin(), x.end(), q);
+        std::string sk = "[";
+        for (int i = 0; i < L; ++i) { sk += (i != 0 ? " " : "") + num(c.cmp == 2 ? (x[static_cast<std::size_t>(i)].key & 1) : x[static_cast<std::size_t>(i)].key); }
+        s += " stable_sort" + ren(x) + " sort" + sk + "] nth=" + (m < L ? num(x[static_cast<std::size_t>(m)].key & (c.cmp == 2 ? 1 : ~0)) : std::string("-"));
+        auto er = std::equal_range(sa.begin(), sa.end(), v, q);
+        s += " lb=" + num(std::lower_bound(sa.begin(), sa.end(), v, q) - sa.begin()) + " ub=" + num(std::upper_bound(sa.begin(), sa.end(), v, q) - sa.begin()) + " er=" + num(er.first - sa.begin()) + "," + num(er.second - sa.begin())
+           + " bin=" + bs(std::binary_search(sa.begin(), sa.end(), v, q)) + " includes=" + bs(std::includes(sa.begin(), sa.end(), sb.begin(), sb.end(), q));
+        V d(sa.size() + sb.size(), Elem{55, -55});
+        std::merge(sa.begin(), sa.end(), sb.begin(), sb.end(), d.begin(), q);
+        s += " merge" + ren(d);
+        V u(sa.size() + sb.size(), Elem{55, -55});
+        auto r = std::set_union(sa.begin(), sa.end(), sb.begin(), sb.end(), u.begin(), q) - u.begin();
+        s += " set_union=" + num(r) + ren(u.data(), static_cast<int>(r));
+        V i2(sa.size() + sb.size(), Elem{55, -55});
+        auto r2 = std::set_intersection(sa.begin(), sa.end(), sb.begin(), sb.end(), i2.begin(), q) - i2.begin();
+        s += " set_intersection=" + num(r2) + ren(i2.data(), static_cast<int>(r2));
+        V h = halves;
+        std::inplace_merge(h.begin(), h.begin() + m, h.end(), q);
+        s += " inplace_merge" + ren(h);
+        if (L >= 2) { s += " min2=" + num(&std::min(a[0], a[1], q) - a.data()) + " max2=" + num(&std::max(a[0], a[1], q) - a.data()); }
+    }
+    {
+        Buf A("a", a, c.pad, padn(c));
+        Buf B("b", b, c.pad, padn(c));
+        Buf SA("sorted_a", sa, c.pad, padn(c));
+        Buf SB("sorted_b", sb, c.pad, padn(c));
+        Scope sc;
+        auto f   = A.b();
+        auto l   = A.e();
+        auto mme = etl::minmax_element(f, l, q);
+        e += "is_sorted=" + bs(etl::is_sorted(f, l, q)) + " until=" + num(etl::is_sorted_until(f, l, q) - f) + " min=" + num(etl::min_element(f, l, q) - f) + " max=" + num(etl::max_element(f, l, q) - f) + " minmax=" + num(mme.first - f) + ","
+           + num(mme.second - f) + " lex=" + bs(etl::lexicographical_compare(f, l, B.b(), B.e(), q));
+        Buf X("x", a, c.pad, padn(c));
+        etl::stable_sort(X.b(), X.e(), q);
+        Buf Y("y", a, c.pad, padn(c));
+        etl::sort(Y.b(), Y.e(), q);
+        Buf Z("z", a, c.pad, padn(c));
+        etl::nth_element(Z.b(), Z.b() + m, Z.e(), q);
+        // sort / nth_element are unstable: only the keys (mod-2 classes for the modulo comparator) are compared
+        std::string sk = "[";
+        for (int i = 0; i < L; ++i) { sk += (i != 0 ? " " : "") + num(c.cmp == 2 ? (Y.b()[i].key & 1) : Y.b()[i].key); }
+        e += " stable_sort" + ren(X) + " sort" + sk + "] nth=" + (m < L ? num(Z.b()[m].key & (c.cmp == 2 ? 1 : ~0)) : std::string("-"));
+        auto er = etl::equal_range(SA.b(), SA.e(), v, q);
+        e += " lb=" + num(etl::lower_bound(SA.b(), SA.e(), v, q) - SA.b()) + " ub=" + num(etl::upper_bound(SA.b(), SA.e(), v, q) - SA.b()) + " er=" + num(er.first - SA.b()) + "," + num(er.second - SA.b())
+           + " bin=" + bs(etl::binary_search(SA.b(), SA.e(), v, q)) + " includes=" + bs(etl::includes(SA.b(), SA.e(), SB.b(), SB.e(), q));
+        Buf D("merge_dest", static_cast<int>(sa.size() + sb.size()), c.pad, padn(c));
+        etl::merge(SA.b(), SA.e(), SB.b(), SB.e(), D.b(), q);
+        e += " merge" + ren(D);
+        V u(sa.size() + sb.size(), Elem{55, -55});
+        auto ul = static_cast<int>(std::set_union(sa.begin(), sa.end(), sb.begin(), sb.end(), u.begin(), Cmp{c.cmp}) - u.begin());
+        Buf U("set_union_dest", ul, c.pad, padn(c));
+        auto r = etl::set_union(SA.b(), SA.e(), SB.b(), SB.e(), U.b(), q) - U.b();
+        e += " set_union=" + num(r) + ren(U);
+        auto il = static_cast<int>(std::set_intersection(sa.begin(), sa.end(), sb.begin(), sb.end(), u.begin(), Cmp{c.cmp}) - u.begin());
+        Buf I2("set_intersection_dest", il, c.pad, padn(c));
+        auto r2 = etl::set_intersection(SA.b(), SA.e(), SB.b(), SB.e(), I2.b(), q) - I2.b();
+        e += " set_intersection=" + num(r2) + ren(I2);
+        Buf H("halves", halves, c.pad, padn(c));
+        etl::inplace_merge(H.b(), H.b() + m, H.e(), q);
+        e += " inplace_merge" + ren(H);
+        if (L >= 2) { e += " min2=" + num(&etl::min(f[0], f[1], q) - f) + " max2=" + num(&etl::max(f[0], f[1], q) - f); }
+    }
+    return verdict(e, s);
+}
+
 } // namespace
 
 auto table() -> std::vector<Entry> const&
@@ -229,6 +463,11 @@ auto table() -> std::vector<Entry> const&
         C06_REG(a_bounds, "lower_upper_bound_equal_range_binary_search", D_CMP | D_ASORT | D_VAL | D_LONG, KF),
         C06_REG(a_bounds_het, "bounds_heterogeneous_value", D_CMP | D_ASORT | D_VAL | D_LONG, KP),
         C06_REG(a_bounds_het, "bounds_heterogeneous_value", D_CMP | D_ASORT | D_VAL | D_LONG, KF),
+        // predicates / comparators returning a class type convertible to bool (not bool, not an arithmetic type);
+        // int results with "true" != 1 are a dimension of every C06 harness (Case::tr)
+        C06_REG(a_class_unary, "class_result_unary_predicates", D_PRED, KP),
+        C06_REG(a_class_binary, "class_result_binary_predicates", D_EQV | D_B | D_VAL | D_LEN4, KP),
+        C06_REG(a_class_compare, "class_result_comparators", D_CMP | D_B | D_VAL | D_LEN4, KP),
         C06_REG(a_includes, "includes", D_CMP | D_ASORT | D_BSORT | D_B | D_LONG, KP),
         C06_REG(a_includes, "includes", D_CMP | D_ASORT | D_BSORT | D_B | D_LONG, KI),
         C06_REG(a_includes, "includes", D_CMP | D_ASORT | D_BSORT | D_B | D_LONG, Kpi),
